@@ -5,6 +5,8 @@ DC.Model.Layers.Fanout (result + every shard's table): every key-addressed call
 (set/add/get/[]/in/touch/incr/decr/pop/delete/read), the aggregates (len,
 volume, clear, expire, evict, cull, stats, iteration, check, reset) and
 `with fanout.transact()` blocks that commit or raise.
+(2b) policy-none histories whose results are also compared with the ONE Lean
+reference dictionary DC.Spec (theorem frun_refines).
 (3) aggregates over DAMAGED shards (value files deleted/added/resized, counters
 offset, in a random subset of shards) against the shards asked one by one, in
 shard order; the divided size limit; check(fix=True) converging on every shard.
@@ -103,6 +105,19 @@ def probe_d11():
         return None
     finally:
         shutil.rmtree(d, ignore_errors=True)
+
+
+SPEC_OPS = {'set', 'add', 'get', 'getitem', 'read', 'contains', 'touch', 'incr', 'pop', 'delete', 'delitem', 'clear', 'evict', 'expire', 'cull'}
+
+
+def spec_fan_history(rng, length):
+    """a history inside the regime of DC.Fanout.frun_refines: policy 'none', key-addressed calls and bulk
+    removals, non-decreasing clocks, no key that is numerically equal to a key of another type (D11)"""
+    h = fan_history(rng, length * 2)
+    h['cfg']['policy'] = 'none'
+    h['ops'] = [op for op in h['ops'] if op['m'] in SPEC_OPS and type(op.get('k')) is not float][:length]
+    h['state_every'] = 0
+    return h
 
 
 def aggregate_probe(seed):
@@ -254,6 +269,20 @@ def run(tier, seed, rng, known, replay):
     elif any(o != outs[0] for o in outs[1:]):
         violations.append({'replay': {'property': 'C13', 'kind': 'routing', 'routes': outs}, 'found_input': True,
                            'what': 'the shard of a key depends on the interpreter (hash seed)'})
+    # the real FanoutCache against the ONE Lean reference dictionary (specification side of frun_refines)
+    n_spec = 150 if tier == 'quick' else 2500
+    shists = [spec_fan_history(rng, rng.choice([12, 30, 60])) for _ in range(n_spec)]
+    rs = base.check_histories('C13', shists, ('result', 'state'), acceptor=acceptor, known=known, runner=layers.layer_chunk)
+    compared, bad = base.against_lean_spec(rs['impl_out'], 'sop', cfg_head='cfg', undetermined=('clear', 'evict', 'expire', 'cull'))
+    violations += list(rs['violations'])
+    for b in bad[:2]:
+        h = shists[b['history']]
+        what = 'call #%d %s returns %s on %d shards, the reference dictionary DC.Spec returns %s' % (
+            b['op_index'], b['line'][:90], b['impl'][:60], h['cfg']['shards'], b['spec'][:60])
+        violations.append({'replay': {'property': 'C13', 'kind': 'spec-disagreement', 'cls': 'fanout', 'cfg': h['cfg'],
+                                      'ops': base.tag(h['ops'][:b['op_index'] + 1]), 'line': b['line'], 'impl': b['impl'], 'spec': b['spec'],
+                                      'acceptor': what, 'spec_part': 'DC.Spec.step; refinement theorem DC.Fanout.frun_refines'},
+                           'found_input': True, 'what': 'property violated on the implementation: ' + what})
     n_agg = 40 if tier == 'quick' else 600
     for s_ in [rng.getrandbits(40) for _ in range(n_agg)]:
         v = aggregate_probe(s_)
@@ -274,6 +303,6 @@ def run(tier, seed, rng, known, replay):
         'rule': 'seeded call histories over the C03 alphabet on FanoutCache with shards in {1,2,3,8,13}; routing of %d boundary keys per shard count '
                 'against the model and across 4 interpreters with different PYTHONHASHSEED; aggregates (check, len, volume, iteration, evict, clear, the divided size limit) of caches with damaged shards against the shards one by one; distinct = distinct (method, result) pairs' % len(ROUTE_KEYS),
         'samples': [base.sample(hists[0], r['impl_out'][0]), base.sample(hists[-1], r['impl_out'][-1])], 'traces': len(hists),
-        'dist': dict(dist, histories=len(hists), divergent=r['divergent'], interpreters=4, aggregate_probes=n_agg),
+        'dist': dict(dist, histories=len(hists), divergent=r['divergent'], interpreters=4, aggregate_probes=n_agg, spec_histories=n_spec, results_compared_with_lean_spec=compared, spec_disagreements=len(bad)),
         'violations': violations, 'known': known_hits,
     }
